@@ -16,6 +16,7 @@ import (
 )
 
 type Exec struct {
+	keyCodes map[string]bool
 	w         *World
 	vc        *VC
 	heapSorts map[string]string
@@ -481,8 +482,8 @@ func (x *Exec) seqEq(a, b []string, aLit, bLit *StrLit) string {
 	}
 	x.vc.nfresh++
 	i := fmt.Sprintf("i!%d", x.vc.nfresh)
-	return "(and (= " + a[2] + " " + b[2] + ") (forall ((" + i + " Int)) (=> (and (<= 0 " + i + ") (< " + i + " " + a[2] + ")) (= " +
-		tSel(a[0], tAdd(a[1], i)) + " " + tSel(b[0], tAdd(b[1], i)) + "))))"
+	lo, hi, ps := reindex(i, "0", a[2], "(= "+tSel(a[0], tAdd(a[1], i))+" "+tSel(b[0], tAdd(b[1], i))+")")
+	return "(and (= " + a[2] + " " + b[2] + ") (forall ((" + i + " Int)) (=> (and (<= " + lo + " " + i + ") (< " + i + " " + hi + ")) " + ps[0] + ")))"
 }
 
 // strEq: Go's == on strings. Against a literal the comparison is spelled out
